@@ -20,10 +20,12 @@ Family ==
        [kind : {"benign"}, i : 1..Len(OpSeq), n : 0..6, v : 1..3, d : {2}]
   \cup [kind : {"arb"}, i : 1..Len(OpSeq), n : 0..6, v : 1..Len(T3), d : {1}]
   \cup [kind : {"unary"}, i : 1..Len(OpSeq), n : {1}, v : 1..Len(X3), d : {2}]
-  \cup [kind : {"place"}, i : 1..Len(OpSeq), n : {0}, v : 1..8, d : {2}]
+  \cup [kind : {"place"}, i : 1..Len(OpSeq), n : {0}, v : 1..12, d : {2}]
 
 \* an operation on k with a WRONG operand count (if there is one among 0..6), else a right one
 BadCount(k) == IF \E n \in 0..6 : ~ArityOK(k, n) THEN CHOOSE n \in 0..6 : ~ArityOK(k, n) ELSE 0
+\* the largest accepted count up to 3 that is at least 1 (1 if none)
+GoodCount(k) == IF \E n \in 1..3 : ArityOK(k, n) THEN CHOOSE n \in 1..3 : ArityOK(k, n) /\ \A q \in 1..3 : ArityOK(k, q) => q <= n ELSE 1
 BadOp(k) == Op(K_cat, <<Op(k, Benign(k, BadCount(k), 1))>>)
 LogL == Op(K_log, <<Str(<<76>>)>>)
 
@@ -41,6 +43,11 @@ RuleOf(cc) ==
            [] cc.v = 6 -> Op(K_add, <<IntV(1), Op(K_if, <<False, BadOp(k), IntV(2)>>)>>)
            [] cc.v = 7 -> Op(K_map, <<Arr(<<>>), BadOp(k)>>)                     \* unparsable expression, empty collection
            [] cc.v = 8 -> Op(K_var, <<Str(S_a), BadOp(k)>>)                      \* inside a default expression
+           \* the ill-formed operation DIRECTLY as an operand (no wrapper), also under its own operator
+           [] cc.v = 9 -> Op(K_or, <<False, Op(k, Benign(k, BadCount(k), 1))>>)
+           [] cc.v = 10 -> Op(K_and, <<True, Op(k, Benign(k, BadCount(k), 1))>>)
+           [] cc.v = 11 -> LET n == GoodCount(k) IN Op(k, [q \in 1..n |-> IF q = n THEN Op(k, Benign(k, BadCount(k), 1)) ELSE BenignAt(k, q, 1)])
+           [] cc.v = 12 -> Op(K_if, <<Op(k, Benign(k, BadCount(k), 1)), IntV(1), IntV(2)>>)
 Rule2Of(cc) == Op(OpSeq[cc.i], <<X3[cc.v]>>)
 DataOf(cc) == D3[cc.d]
 
@@ -67,7 +74,11 @@ UnaryOperandsNotArrays == \A j \in DOMAIN X3 : X3[j].t # "a"
 Scope(cc) == IF cc.kind = "arb" /\ ArityOK(OpSeq[cc.i], cc.n) THEN <<>>
              ELSE IF cc.kind = "unary" /\ ArityOK(OpSeq[cc.i], 1) THEN <<>>   \* only the equality of the spellings is pinned
              ELSE IF cc.kind = "place" /\ cc.v = 7 THEN <<>>
+             ELSE IF cc.kind = "place" /\ cc.v = 11 /\ OpSeq[cc.i] \in {K_map, K_filter, K_reduce, K_all, K_some, K_none} THEN <<>>
              ELSE <<"C03">>
+\* an operation with a wrong count is an error wherever it is actually reached
+WrongCountReached ==
+  phase = "done" /\ c.kind = "place" /\ c.v \in {9, 10, 12} /\ ~ArityOK(OpSeq[c.i], BadCount(OpSeq[c.i])) => ~Outcome(c).ok
 ExportCases ==
   phase = "done" =>
     IF c.kind = "unary"
